@@ -19,6 +19,10 @@ Balances live in `PvModel.Ledger` (append-only deltas; meaning = `bal`).  Every 
 context (baseapp runTx / the msg-service router; `Try` in the harness) to drop them — `commit` is that
 step, `sendCoinsRaw` keeps the partial write visible.
 
+The restrictions appended after the marker's are a parameter (`World.later`); `appLater` is the app's
+composition (x/sanction/keeper/send_restriction.go:15, x/quarantine/keeper/send_restriction.go:15).
+`inputOutputCoinsProvMerged` is InputOutputCoinsProv with the merged per-address `sdk.Coins` of the Go text.
+
 Not modelled: denom syntax (`ValidateDenom`), bech32 decoding of Input/Output addresses, events,
 creation of the receiver's base account, vesting delegation tracking.  Core-only.
 -/
